@@ -857,6 +857,9 @@ def run(ctx, rep):
     from rules import c03_allwalks
     c03_allwalks.run(ctx, rep)
     rule_grow(ctx, rep)
+    # a file that is named is in the set: push cannot say Ok for a file it did not add
+    from rules.c13 import rule_pushadds
+    rule_pushadds(ctx, rep, rid="R-C03-pushadds")
     from rules import c03_errdrop
     c03_errdrop.run(ctx, rep, rid="R-C03-errdrop")
     # a faulty declaration between two comments must not be swallowed by the first comment
